@@ -2338,7 +2338,13 @@ class Problem(object, metaclass=ProblemMetaclass):
                     else:
                         val = outputs[name]
 
-                    for abs_name in resolver.absnames(name):
+                    if resolver.is_prom(name, 'output'):
+                        abs_names = resolver.absnames(name, 'output')
+                    else:
+                        # promoted input name that stands for an _auto_ivc output
+                        abs_names = (resolver.source(name),)
+
+                    for abs_name in abs_names:
                         if set_later(abs_name):
                             continue
 
